@@ -11,6 +11,9 @@ structure SFix where
   f13 : Bool := false   -- zero-width progress characters are rejected when the style is built
 deriving Repr, DecidableEq
 
+/-- the repairs the repository contains now; the harness runs the model with this value (`FX=current`) -/
+def SFix.current : SFix := { f12 := true, f13 := true }
+
 structure Style where
   tickN : Nat := 30          -- default spinner: 30 tick strings
   progWidths : List Nat := [1, 1]
